@@ -155,6 +155,14 @@ func genRich(t *core.Tape, tier, prop string) *Scenario {
 	p.ReqHeader = genMeta(t, "X-Q", p.bin)
 	p.RespHeader = genMeta(t, "X-H", p.bin)
 	p.RespTrailer = genMeta(t, "X-T", p.bin)
+	shared := t.Bool(1, 3, "shared.key")
+	if shared {
+		// the same key as response header and as trailer (and, below, as error
+		// metadata), with distinct values
+		p.RespHeader.Add("X-Shared", "from-header-"+genValue(t))
+		p.RespTrailer.Add("X-Shared", "from-trailer-"+genValue(t))
+		sc.Notes["shared_header_trailer_key"]++
+	}
 	stdPrograms(t, p)
 	fail := t.Bool(1, 2, "fail")
 	if prop == "C02" {
@@ -162,6 +170,12 @@ func genRich(t *core.Tape, tier, prop string) *Scenario {
 	}
 	if fail {
 		p.HErr = genErrPlan(t, sc.Notes, p.bin)
+		if shared && !p.HErr.Plain {
+			if p.HErr.Meta == nil {
+				p.HErr.Meta = http.Header{}
+			}
+			p.HErr.Meta.Add("X-Shared", "from-error-"+genValue(t))
+		}
 		// error after k messages: cut the handler program
 		switch p.Kind {
 		case KClient:
